@@ -105,18 +105,20 @@ def body_macro(k, lo, hi, optname, idx=None, tails=None):
     return done == 1
 
 
-def body_env(k, lo, hi, optname):
+def body_env(k, lo, hi, optname, short=False):
     done = 0
     for i in range(lo, hi):
         if k == i:
             nm = ENVS[i]
             b, e = BS + 'begin{' + nm + '}', BS + 'end{' + nm + '}'
-            for body in ['', 'x', '[]{}x', '{}{}', '[a]{b}{c} d & e ' + BS + BS + ' f', BS + 'item x', '\n\n']:
+            bodies = ['', 'x', '[]{}x', '{}{}', '[a]{b}{c} d & e ' + BS + BS + ' f', BS + 'item x', '\n\n']
+            for body in (bodies[:3] if short else bodies):
                 l2t(b + body + e, optname)
             l2t(b, optname)
-            l2t(b + '[', optname)
             l2t('$' + b + 'x' + e + '$', optname)
-            l2t(BS + 'textbf' + b + e, optname)
+            if not short:
+                l2t(b + '[', optname)
+                l2t(BS + 'textbf' + b + e, optname)
             done = 1
     return done == 1
 
@@ -177,7 +179,7 @@ def conditions(tier):
         hi = min(len(ENVS), lo + 8)
         for o in (['verb_strict_fill'] if quick else list(opts) + ['verb_strict_fill']):
             conds.append(Cond('envs_%03d_%s' % (lo, o), 'k: int', ['%d <= k < %d' % (lo, hi)],
-                              'body_env(k, %d, %d, %r)' % (lo, hi, o), timeout=T, cost=3, twin=False,
+                              'body_env(k, %d, %d, %r, %r)' % (lo, hi, o, quick), timeout=T, cost=3, twin=False,
                               smoke=[dict(k=lo), dict(k=hi - 1)],
                               descr='environment names %s .. %s' % (ENVS[lo], ENVS[hi - 1])))
     return conds
@@ -191,7 +193,7 @@ META = dict(
                'LatexWalker tolerant parsing underneath (see C06)'],
     bounds=dict(quick='every Unicode string of length <= 2 under 3 option sets; 13 skeletons with one free hole (default options); '
                       'the %d macro names (of %d) whose walker signature takes arguments or whose text replacement is computed, in 5 '
-                      'concrete uses each, and every environment name (%d) in 11 uses (empty and missing arguments, end of input, as '
+                      'concrete uses each, and every environment name (%d) in 5 uses (empty and missing arguments, end of input, as '
                       'argument of another macro, inside math), the name selected by a symbolic integer' % (
                           len(INTERESTING), len(MACROS), len(ENVS)),
                 thorough='length <= 3 under 6 option sets; name sweep under all 6 option sets'),
